@@ -500,3 +500,8 @@ def check_itertypes(case, ctx):
 
 
 SUBS.append(Sub('itertypes', check_itertypes, enumerate=itertypes_cases, shards_quick=1, shards_thorough=1))
+
+
+from vlib.reported import reported_sub  # noqa: E402
+
+SUBS.append(reported_sub('C17'))
